@@ -1,11 +1,11 @@
 /-
 Helper lemmas for C25: the invariant of the one-node CDC pipeline model
-(RqModel/Model/Cdc.lean) and its preservation by every operation, for histories in which
+(RqModel/Model/CdcPipe.lean) and its preservation by every operation, for histories in which
 every log entry yields at most one event group (single statement, or a transaction).
 -/
-import RqModel.Model.Cdc
+import RqModel.Model.CdcPipe
 import RqModel.Lemmas.Fifo
-namespace RqModel.Cdc
+namespace RqModel.CdcPipe
 open RqModel.Fifo
 
 /-- number of statements of an entry that produce events -/
@@ -282,4 +282,4 @@ theorem flush_good (s : St) (f : Nat) (hb : Base s f) (hc : Cov s f) :
             simp only
             omega
 
-end RqModel.Cdc
+end RqModel.CdcPipe
